@@ -808,6 +808,21 @@ func (g *pgen) funcDef(globals []variable, public bool) FuncSig {
 		prefix = "F"
 	}
 	sig := FuncSig{Name: g.fresh(prefix)}
+	if g.f.AdvNames && !public && g.r.Chance(12) {
+		// a function named like a word that ends or opens a block in one of the targets
+		n := g.r.Pick([]string{"done", "fi", "elif", "esac", "then", "do", "function", "select", "until", "while", "goto", "call", "rem", "exit"})
+		taken := g.used[n]
+		for _, f := range g.funcs {
+			taken = taken || f.Name == n
+		}
+		if !taken {
+			if g.used == nil {
+				g.used = map[string]bool{}
+			}
+			g.used[n] = true
+			sig.Name = n
+		}
+	}
 	if g.f.AdvNames && !public && len(g.funcs) > 0 && r.Chance(25) {
 		// a twin of a function that already exists: same name, one inner letter in the other case
 		base := g.funcs[r.Intn(len(g.funcs))].Name
